@@ -177,6 +177,33 @@ Theorem c19_no34_note :
 Proof. exact no34_note. Qed.
 Print Assumptions c19_no34_note.
 
+(* The converse for application messages: a decoded message of any type process sends to handle_application
+   (app_type: everything but the seven one-character administrative types, in particular EVERY type of two or more
+   characters whatever its first character) that is in sequence, on an established active session with passing
+   CompIDs, IS delivered: the events of process are exactly one DELIVER of that type and number. *)
+Theorem c19_in_sequence_delivered :
+  forall sc decode fl now raw s m,
+  decode raw = DecOk m -> raw_seq raw = Some (field_seq m) -> app_type (m_type m) = true -> s_active s = true ->
+  is_established (s_state s) = true -> (s_state s = st_logon_received \/ compid_pass s m = true) ->
+  (field_seq m = s_next_recv s \/
+   (field_seq m < s_next_recv s /\ possdup_of m = true /\ orig_after m = false)) ->
+  exists s', process sc decode fl now raw s =
+             (mem_bytes (m_type m) (sc_routed sc), s', [EDeliver (m_type m) (field_seq m) (possdup_of m)]).
+Proof. exact in_sequence_delivered. Qed.
+Print Assumptions c19_in_sequence_delivered.
+
+(* ... on a two-character application type that starts with the Heartbeat's character: delivered as "0X", the
+   oracle accepts; the same trace without the DELIVER (the message swallowed by an admin handler) is rejected. *)
+Theorem c19_twochar_witness :
+  app_type (b "0X") = true /\ is_app sc0 (b "0X") = true /\
+  decoded_seq raw_0x = Some 2 /\ raw_seq raw_0x = Some 2 /\ s_next_recv s_cont = 2 /\
+  delivers_of (p_evs (proc raw_0x s_cont)) = [b "0X"] /\
+  c19_ok sc0 lens0 ops_0x (run0 ops_0x) = true /\
+  c19_ok sc0 lens0 ops_0x (run0c ops_0x) = true /\
+  c19_ok sc0 lens0 ops_0x (drop_delivers (run0 ops_0x)) = false.
+Proof. exact w0x. Qed.
+Print Assumptions c19_twochar_witness.
+
 (* Once the session is shut down the reader loop hands nothing more to process (no delivery after the end). *)
 Theorem c19_after_stop_nothing :
   forall sc decode fl now l s evs,
